@@ -10,6 +10,8 @@ SPEC = {
         {"name": "TestConcUnlimited", "quick": 400, "thorough": 16000, "shards_quick": 4, "shards_thorough": 16, "timeout": 1500},
         {"name": "TestImplicitStart", "quick": 2400, "thorough": 160000, "shards_quick": 8, "shards_thorough": 16, "timeout": 2400,
          "race_thorough": True},
+        {"name": "TestUnlimitedStartRace", "quick": 800, "thorough": 40000, "shards_quick": 8, "shards_thorough": 16, "timeout": 2400,
+         "race_thorough": True},
         {"name": "TestInterleavings", "quick": 6000, "thorough": 600000, "shards_quick": 3, "shards_thorough": 16, "timeout": 1500},
     ],
     "rule": ("rapid-generated schedule trees (depth <= 3, <= 5 children; leaves once/const/line/step/instance_step/unlimited, zero-token "
@@ -18,7 +20,9 @@ SPEC = {
              "goroutines, 4 rounds per case, multiset + linearisability windows for Left. TestSeqUnlimited/TestConcUnlimited: real time, "
              "1-4 ms parts, callers wait for each token as coreutil.Waiter does. TestImplicitStart: 2-8 goroutines released together "
              "race for the first Next of an UNSTARTED finite schedule (what the engine's instances do), 12 rounds per case; one start "
-             "instant inside the measured window must explain every token. TestInterleavings: 2-3 callers whose interleaving at the "
+             "instant inside the measured window must explain every token. TestUnlimitedStartRace: 200 trials per case; a fresh unlimited(d) part (bare or first in a "
+             "composite) is started implicitly by Next (or explicitly by one Start) while 1-4 other goroutines poll Left(); every "
+             "answer that comes back before release+d must be negative. TestInterleavings: 2-3 callers whose interleaving at the "
              "composite's lock-free yield points (hook) is dictated by a drawn choice list. Non-trivial = >= 2 token-bearing parts and "
              "(nesting depth >= 2 or a zero-token part [seq]; any [conc]; >= 2 tokens [implicit start]; an unknown-length part that is not first [unlimited]; "
              "a lock-upgrade point reached [interleavings]); distinct = hash of tree+script(+choices)."),
